@@ -6,6 +6,7 @@ NA = {
  "C02":"the round trip is decided by the ANTLR-generated CTE lexer/parser and by strconv/big/apd text conversion; no contract on /repo code can state what the grammar accepts (DESIGN.md section 6, C02)",
  "C03":"agreement between the Go validators and the CTE grammar's token classes; the grammar side is not code a contract can be attached to",
  "C06":"correctness of reflect-built untyped values; no integer/byte kernel carries it and contracts would only axiomatise package reflect",
+ "C13":"marker and reference identifiers live in map[interface{}] tables keyed by Go strings; the memory model of the VC generator does not interpret string contents inside interface keys, so 'every reference names a marker that appears somewhere' cannot be stated as a contract on /repo code, and the value-building half (reference filling) is reflect code; the parts that are contractable are decided elsewhere: marker limit, duplicate ids and forward-reference type compatibility in C14 (MarkObject), marker placement in C10 (transition table)",
  "C17":"quantifies over schedules; the VC generator has no concurrency semantics (no go statements, no happens-before)",
  "C20":"pointer-graph isomorphism through reflect setters and an external duplicate finder (go-duplicates); nothing within reach of function contracts",
  "C21":"field selection, order and name matching are reflect + strings + regexp + sort code; only two leaf helpers are contractable and they do not decide the property",
